@@ -172,8 +172,10 @@ func (p *c09) Enumerate(tier string) [][]int32 {
 	p.tier = tier
 	var out [][]int32
 	maxK := 260
+	maxW := 160
 	if tier == "thorough" {
 		maxK = 5000
+		maxW = 2500
 	}
 	if tier == "thorough" {
 		for si := range p.shapes {
@@ -210,6 +212,11 @@ func (p *c09) Enumerate(tier string) [][]int32 {
 			}
 			for j := 1; j <= 12; j++ {
 				out = append(out, []int32{0, int32(si), int32(opt), int32(1 - api), int32(j % 2), 3, int32(j)})
+			}
+			// every instant of the work clock in the prefix (sub-instruction
+			// granularity; the draw is "1 + Intn(4000)", so w-1 is recorded)
+			for w := 0; w < maxW; w++ {
+				out = append(out, []int32{0, int32(si), int32(opt), int32(api), int32(w % 3), 5, int32(w)})
 			}
 		}
 	}
@@ -425,11 +432,15 @@ func (p *c09) Run(c *verifsim.Chooser, st *Stats, render bool) *Outcome {
 	// the context may also reach the evaluator the other documented way:
 	// Prepare, SetContext, Prepare again
 	prepTwice := mode == 1 && c.Intn(3) == 1
-	plan := c.Intn(5)
+	plan := c.Intn(6)
 	var k int64 = -1
 	hostCall := 0
 	var slow int64
+	var atWork int64
 	switch plan {
+	case 5:
+		// an instant on the work clock: between two instructions' ticks
+		atWork = int64(1 + c.Intn(4000))
 	case 1:
 		lim := 6000
 		if rec {
@@ -446,9 +457,10 @@ func (p *c09) Run(c *verifsim.Chooser, st *Stats, render bool) *Outcome {
 	}
 	o.Digest.Str(text)
 	o.Digest.U64(uint64(plan)<<32 | uint64(k+1))
+	o.Digest.U64(uint64(atWork))
 
 	need := k + 600
-	if plan == 3 {
+	if plan == 3 || plan == 5 {
 		need = 3000
 	}
 	tw := p.twin(text, opt, names, need)
@@ -463,6 +475,7 @@ func (p *c09) Run(c *verifsim.Chooser, st *Stats, render bool) *Outcome {
 	ctx.NearDeadline = dlKind == 2
 	ctx.HardCap = need + c09B + 1000
 	ctx.PanicAfter = c09B
+	ctx.CancelAtWork = atWork
 	if plan != 0 {
 		// a planned cancellation also lands inside an instruction that turns
 		// out to be long (whichever comes first), and must stop it too
@@ -515,8 +528,8 @@ func (p *c09) Run(c *verifsim.Chooser, st *Stats, render bool) *Outcome {
 	if render {
 		o.Sample = map[string]interface{}{
 			"script": text, "family": family, "optimizer": opt, "front_end": map[bool]string{true: "Run", false: "Execute"}[useRun],
-			"plan":   []string{"never", "cancel-at-clock", "already-expired", "cancel-inside-host-call", "deadline+slow-host"}[plan],
-			"k":      k, "host_call": hostCall, "slow_ticks": slow, "context_deadline": []string{"none", "one hour away", "always 500us away"}[dlKind],
+			"plan":   []string{"never", "cancel-at-clock", "already-expired", "cancel-inside-host-call", "deadline+slow-host", "cancel-at-work-unit"}[plan],
+			"k":      k, "work_unit": atWork, "host_call": hostCall, "slow_ticks": slow, "context_deadline": []string{"none", "one hour away", "always 500us away"}[dlKind],
 			"result": r.String(), "ticks": ctx.Ticks, "context_polls": ctx.Polls, "ticks_after_cancel": ctx.TicksAfter, "host_calls": h.Calls,
 			"twin_result": tw.res.String(), "twin_ticks": tw.ticks,
 		}
@@ -528,13 +541,17 @@ func (p *c09) Run(c *verifsim.Chooser, st *Stats, render bool) *Outcome {
 	}
 	if fired {
 		o.Nontrivial = true
-		st.fault([]string{"", "cancel-at-clock", "already-expired", "cancel-inside-host-call", "deadline+slow-host"}[plan])
+		st.fault([]string{"", "cancel-at-clock", "already-expired", "cancel-inside-host-call", "deadline+slow-host", "cancel-at-work-unit"}[plan])
 		if h.CancelledInHost {
 			st.probe("cancel-landed-inside-host-call")
 		}
 		if e.VerifScopes() > 0 {
 			st.probe("cancel-landed-inside-scope(function/foreach)")
 		}
+	}
+	if plan == 5 && !ctx.FiredInWork && !ctx.Runaway && !ctx.RunawayWork {
+		// the run had fewer work units than the instant: no cancellation
+		plan = 0
 	}
 	if plan == 3 && !h.CancelledInHost && !ctx.Runaway {
 		// the host call in which the cancellation was planned never
